@@ -10,7 +10,7 @@ The generated code is written against coq/Gen/Prelude.v.  Everything the transla
 arguments (Python is untyped), the fuel of each `while` and the few trusted idioms.  The output depends only on the
 AST (not on comments, docstrings, blank lines, formatting, dict order or hash seeds).
 """
-import ast, os, sys, argparse
+import ast, os, re, sys, argparse
 from fractions import Fraction
 
 HERE = os.path.dirname(os.path.abspath(__file__))
@@ -129,7 +129,7 @@ def paren_type(t):
 
 # Coq keywords / constructors in scope that may not be used as (pattern) variables
 RESERVED = set("""left right S O Some None true false tt nil cons pair inl inr GOk GErr GCont GRet Z0 Zpos Zneg xH xI xO
-eq_refl I Lt Gt Eq as at cofix else end exists exists2 fix for forall fun if IF in let match mod Prop return Set then
+py_inf py_ninf eq_refl I Lt Gt Eq as at cofix else end exists exists2 fix for forall fun if IF in let match mod Prop return Set then
 Type using where with do K T IndexError ValueError TypeError ZeroDivisionError GeomdlError OutOfFuel Qmake""".split())
 
 
@@ -261,6 +261,9 @@ class FunTrans(object):
         self.checked_div = fspec.get("checked_div", False)
         self.catching_zero_div = 0
         self.callee_raises = set()
+        self.static_vals = dict(fspec.get("static_vals", {}))     # parameter -> the literal this variant is specialised to
+        self.local_fns = {}       # nested function name -> {"owned": [...]}
+        self.outer_names = ()     # (nested functions) the variables of the enclosing function
         # a function that never updates a list in place may give a list a second name
         if not mutates_lists(fdef.body):
             self.alias_ok = True
@@ -284,15 +287,28 @@ class FunTrans(object):
             name = dn.id if isinstance(dn, ast.Name) else None
             if name not in IGNORED_DECORATORS:
                 fail(f, "unknown decorator")
-        names = [x.arg for x in a.args]
+        allnames = [x.arg for x in a.args]
+        self.all_params = allnames
+        for n in self.static_vals:
+            if n not in allnames:
+                fail(f, "static parameter %s is not a parameter" % n)
+            if n in assigned_names(f.body):
+                fail(f, "static parameter %s is assigned in the body" % n)
+        names = [n for n in allnames if n not in self.static_vals]
         if names != list(sp["params"].keys()) and set(names) != set(sp["params"].keys()):
             fail(f, "parameters %s differ from the spec %s" % (names, list(sp["params"].keys())))
         for n in names:
             self.params.append((n, parse_type(sp["params"][n])))
         ndef = len(a.defaults)
         self.defaults = {}
-        for n, d in zip(names[len(names) - ndef:], a.defaults):
-            self.defaults[n] = d
+        self.static_defaults = {}
+        for n, d in zip(allnames[len(allnames) - ndef:], a.defaults):
+            if n in self.static_vals:
+                if not (isinstance(d, ast.Constant) and isinstance(d.value, bool)):
+                    fail(f, "the default of a static parameter must be True / False")
+                self.static_defaults[n] = d.value
+            else:
+                self.defaults[n] = d
         kws = sp.get("kwargs", {})
         if a.kwarg is None and kws:
             fail(f, "spec lists keyword arguments but the function has no **kwargs")
@@ -352,9 +368,15 @@ class FunTrans(object):
         return self.const(node)
 
     def e_Name(self, node, env):
+        if node.id in self.static_vals and node.id not in env:
+            return [], ("true" if self.static_vals[node.id] else "false"), "bool"
         if node.id in env:
+            if self.local_fns.get(node.id, {}).get("owned"):
+                fail(node, "a nested function that updates its argument in place may only be used in reduce(f, xs, fresh)")
             return [], mangle(node.id), env[node.id]
         fn = self.m.lookup_function(node.id)
+        if fn is not None and (fn.get("infinity") or fn.get("variants")):
+            fail(node, "a function with infinity / static parameters used as a value")
         if fn is not None:
             return [], "(%s K)" % fn["coqname"], fn["fntype"]
         fail(node, "variable %s is not (definitely) bound here" % node.id)
@@ -373,6 +395,8 @@ class FunTrans(object):
                 return b, "(rsub (rofZ 0) %s)" % x, "ratio"
         if isinstance(node.op, ast.Not) and t == "bool":
             return b, "(negb %s)" % x, "bool"
+        if isinstance(node.op, ast.Not) and t == "int":
+            return b, "(%s =? 0)" % x, "bool"          # not n  on an int
         if isinstance(node.op, ast.UAdd) and t in ("int", "float", "ratio"):
             return b, x, t
         fail(node, "unary operator not understood")
@@ -388,6 +412,9 @@ class FunTrans(object):
         op = type(node.op).__name__
         if isinstance(tl, tuple) and tl[0] == "list" and isinstance(tr, tuple) and tr[0] == "list" and op == "Add":
             return b, "(%s ++ %s)" % (l, r), unify(tl, tr, node)
+        if tl == tr == "bool" and op in ("Add", "Sub"):
+            # True / False as the ints 1 / 0 :  (a > b) - (a < b)
+            return b, "(Z.b2z %s %s Z.b2z %s)" % (l, "+" if op == "Add" else "-", r), "int"
         num = ("int", "float", "ratio")
         if tl not in num or tr not in num:
             fail(node, "operands %s, %s not understood" % (show_type(tl), show_type(tr)))
@@ -448,6 +475,9 @@ class FunTrans(object):
                 return "(oltb K %s %s)" % (r, l)
             if o == "GtE":
                 return "(oleb K %s %s)" % (r, l)
+        elif tl == tr == ("list", "float") and o in ("Eq", "NotEq"):
+            # list == list: the same length and pairwise ==
+            return ("(pylist_eqb K %s %s)" if o == "Eq" else "(negb (pylist_eqb K %s %s))") % (l, r)
         elif tl == tr == "bool" and o in ("Eq", "NotEq"):
             return ("(Bool.eqb %s %s)" if o == "Eq" else "(negb (Bool.eqb %s %s))") % (l, r)
         fail(node, "comparison %s on %s, %s not understood" % (o, show_type(tl), show_type(tr)))
@@ -508,10 +538,18 @@ class FunTrans(object):
         if not node.elts:
             return [], "[]", ("list", TVar())
         b, xs, t = [], [], TVar()
+        parts = []
         for e in node.elts:
             be, x, te = self.expr(e, env)
             self.no_alias(e, te)
-            b += be; xs.append(x); t = unify(t, te, node)
+            b += be; parts.append((e, x, resolve(te)))
+        # [x - y, 0, 0] : an int LITERAL in a list of floats is the float literal of the same value, as an operand of a
+        # float operation would be (the model's lists are homogeneous)
+        if any(te == "float" for _, _, te in parts) and all(
+                te == "float" or (te == "int" and isinstance(e, ast.Constant)) for e, _, te in parts):
+            parts = [(e, self.coerce_operand(e, x, te, node), "float") for e, x, te in parts]
+        for e, x, te in parts:
+            xs.append(x); t = unify(t, te, node)
         return b, "[%s]" % "; ".join(xs), ("list", t)
 
     def e_Tuple(self, node, env):
@@ -528,6 +566,19 @@ class FunTrans(object):
             return self.slice_expr(node, env)
         bl, l, tl = self.expr(node.value, env)
         tl = resolve(tl)
+        if isinstance(tl, tuple) and tl[0] == "tuple":
+            # t[k] on a tuple (a Coq pair ((a, b), c)) with a literal index inside the tuple
+            k = node.slice
+            n = len(tl[1])
+            if not (isinstance(k, ast.Constant) and isinstance(k.value, int) and not isinstance(k.value, bool)
+                    and 0 <= k.value < n):
+                fail(node, "a tuple may only be indexed by a literal 0 <= k < its length")
+            proj = l
+            for _ in range(n - 1 - k.value):
+                proj = "(fst %s)" % proj
+            if k.value > 0:
+                proj = "(snd %s)" % proj
+            return bl, proj, tl[1][k.value]
         if not (isinstance(tl, tuple) and tl[0] == "list"):
             fail(node, "indexing a %s" % show_type(tl))
         bi, i, ti = self.expr(node.slice, env)
@@ -589,7 +640,11 @@ class FunTrans(object):
         if isinstance(it, ast.Call) and isinstance(it.func, ast.Name) and it.func.id == "enumerate" and "enumerate" not in env:
             if it.keywords or len(it.args) != 1:
                 fail(it, "enumerate() arguments")
-            b1, x1, t1 = self.expr(it.args[0], env)
+            inner = it.args[0]
+            if isinstance(inner, ast.Call) and isinstance(inner.func, ast.Name) and inner.func.id == "zip" and "zip" not in env:
+                b1, x1, et1 = self.iter_source(inner, env)        # enumerate(zip(a, b))
+                return b1, "(combine (zrange 0 (zlen %s) 1) %s)" % (x1, x1), ("tuple", ("int", et1))
+            b1, x1, t1 = self.expr(inner, env)
             t1 = resolve(t1)
             if not (isinstance(t1, tuple) and t1[0] == "list"):
                 fail(it, "enumerate() of a non-list")
@@ -603,6 +658,14 @@ class FunTrans(object):
             if not (isinstance(t1, tuple) and t1[0] == "list" and isinstance(t2, tuple) and t2[0] == "list"):
                 fail(it, "zip() of non-lists")
             return b1 + b2, "(combine %s %s)" % (x1, x2), ("tuple", (t1[1], t2[1]))
+        if isinstance(it, ast.Call) and isinstance(it.func, ast.Name) and it.func.id == "reversed" and "reversed" not in env:
+            if it.keywords or len(it.args) != 1:
+                fail(it, "reversed() arguments")
+            b1, x1, t1 = self.expr(it.args[0], env)
+            t1 = resolve(t1)
+            if not (isinstance(t1, tuple) and t1[0] == "list"):
+                fail(it, "reversed() of a non-list")
+            return b1, "(rev %s)" % x1, t1[1]
         b, x, t = self.expr(it, env)
         t = resolve(t)
         if not (isinstance(t, tuple) and t[0] == "list"):
@@ -654,6 +717,9 @@ class FunTrans(object):
                 fail(node, "keyword argument %r is not in the spec" % (key,))
             bd = self.record_kwdefault(key, node.args[1], env)
             return bd, "kw_" + key, self.kwparams[key]
+        if isinstance(f, ast.Attribute) and isinstance(f.value, ast.Name) and f.value.id == "math" and "math" not in env \
+                and "math" in self.m.plain_imports:
+            return self.math_call(node, env)
         if isinstance(f, ast.Name) and f.id not in env:
             prim = getattr(self, "p_" + f.id, None)
             if prim is not None and f.id in PRIMITIVES:
@@ -665,10 +731,16 @@ class FunTrans(object):
                 fail(node, "call of a non-function")
             if node.keywords or len(node.args) != len(ft[1]):
                 fail(node, "call of a function argument: arity")
+            if self.local_fns.get(f.id, {}).get("owned"):
+                fail(node, "a nested function that updates its argument in place may only be used in reduce(f, xs, fresh)")
             b, xs = [], []
             for a, t in zip(node.args, ft[1]):
                 ba, x, ta = self.expr(a, env)
-                unify(ta, t, node); b += ba; xs.append(x)
+                if resolve(t) == "float" and resolve(ta) == "int":
+                    x = self.coerce_operand(a, x, ta, node)
+                else:
+                    unify(ta, t, node)
+                b += ba; xs.append(x)
             v = self.fresh()
             self.callee_raises |= set(EXC.values())       # an argument function may raise anything
             return b + ["do %s <- %s %s ;;" % (v, mangle(f.id), " ".join(xs))], v, ft[2]
@@ -687,14 +759,39 @@ class FunTrans(object):
 
     def call_translated(self, fn, node, env):
         b, xs = [], []
-        pnames = [p for p, _ in fn["params"]]
-        given = {}
-        if len(node.args) > len(pnames):
+        allp = fn.get("all_params", [p for p, _ in fn["params"]])
+        statics = fn.get("static", [])
+        given_all = {}
+        if len(node.args) > len(allp):
             fail(node, "too many arguments")
-        for p, a in zip(pnames, node.args):
-            given[p] = a
-        kwgiven = {}
+        for p, a in zip(allp, node.args):
+            given_all[p] = a
+        keywords = []
         for kw in node.keywords:
+            if kw.arg in statics:
+                if kw.arg in given_all:
+                    fail(node, "argument given twice")
+                given_all[kw.arg] = kw.value
+            else:
+                keywords.append(kw)
+        if statics:
+            # a static parameter selects the variant of the callee: it must be a literal (or left to its default)
+            key = []
+            for sp_ in statics:
+                if sp_ in given_all:
+                    a = given_all.pop(sp_)
+                    if not (isinstance(a, ast.Constant) and isinstance(a.value, bool)):
+                        fail(node, "the static argument %s must be the literal True / False" % sp_)
+                    key.append(a.value)
+                elif sp_ in fn["static_defaults"]:
+                    key.append(fn["static_defaults"][sp_])
+                else:
+                    fail(node, "missing argument %s" % sp_)
+            fn = fn["variants"][tuple(key)]
+        pnames = [p for p, _ in fn["params"]]
+        given = given_all
+        kwgiven = {}
+        for kw in keywords:
             if kw.arg is None:
                 fail(node, "**kwargs in a call")
             if kw.arg in pnames:
@@ -726,6 +823,10 @@ class FunTrans(object):
                 fail(node, "keyword argument %s has a computed default: give it explicitly" % k)
             else:
                 xs.append("(%s__default_%s K)" % (fn["coqname"], k))
+        if fn.get("infinity"):
+            if not self.spec.get("infinity_params", False):
+                fail(node, "call of a function with infinity parameters from one without")
+            xs += ["py_inf", "py_ninf"]
         v = self.fresh()
         self.callee_raises |= set(fn.get("raises", ()))
         return b + ["do %s <- %s K %s ;;" % (v, fn["coqname"], " ".join(xs))], v, fn["rtype"]
@@ -761,6 +862,26 @@ class FunTrans(object):
         self.kwdefaults[key] = txt
         return []
 
+    def math_call(self, node, env):
+        name = node.func.attr
+        if node.keywords:
+            fail(node, "math.%s with keywords" % name)
+        if name == "factorial" and len(node.args) == 1:
+            b, x, t = self.expr(node.args[0], env)
+            if resolve(t) != "int":
+                fail(node, "math.factorial of a %s" % show_type(t))
+            v = self.fresh()
+            return b + ["do %s <- zfact_chk %s ;;" % (v, x)], v, "int"       # ValueError for a negative argument
+        if name == "pow" and len(node.args) == 2:
+            base = node.args[0]
+            if isinstance(base, ast.UnaryOp) and isinstance(base.op, ast.USub) and isinstance(base.operand, ast.Constant) \
+                    and base.operand.value == 1 and type(base.operand.value) is int:
+                b, x, t = self.expr(node.args[1], env)
+                if resolve(t) != "int":
+                    fail(node, "math.pow(-1, e) with e a %s" % show_type(t))
+                return b, "(pow_neg1 K %s)" % x, "float"                      # math.pow(-1, n) = 1.0 / -1.0
+        fail(node, "math.%s: not understood" % name)
+
     # ---- primitives
     def args1(self, node, env, n=1):
         if node.keywords or len(node.args) != n:
@@ -785,6 +906,8 @@ class FunTrans(object):
 
     def p_float(self, node, env):
         (b, x, t), = self.args1(node, env)
+        if resolve(t) == "ratio":
+            return b, "(oratio K %s)" % x, "float"       # float(a / b) for ints a, b: the exact quotient as a scalar
         return b, self.coerce_float(x, t, node), "float"
 
     def p_int(self, node, env):
@@ -837,12 +960,66 @@ class FunTrans(object):
             return b, "(gsum K %s)" % x, "float"
         fail(node, "sum() of a %s" % show_type(t))
 
+    def p_bool(self, node, env):
+        (b, x, t), = self.args1(node, env)
+        return b, self.truth(x, t, node), "bool"
+
+    def truth(self, x, t, node):
+        """Python truthiness of an int / bool value"""
+        t = resolve(t)
+        if t == "bool":
+            return x
+        if t == "int":
+            return "(negb (%s =? 0))" % x
+        fail(node, "truth value of a %s" % show_type(t))
+
+    def p_sorted(self, node, env):
+        (b, x, t), = self.args1(node, env)
+        t = resolve(t)
+        if t == ("list", ("list", "float")):
+            return b, "(py_sorted_pts K %s)" % x, t       # a new list (of the same point objects)
+        fail(node, "sorted() of a %s" % show_type(t))
+
+    def p_reduce(self, node, env):
+        """reduce(f, xs, init) with f a nested function:  acc = init; for x in xs: acc = f(acc, x)"""
+        if node.keywords or len(node.args) != 3 or not isinstance(node.args[0], ast.Name):
+            fail(node, "reduce() form")
+        fname = node.args[0].id
+        if fname not in env or fname not in self.local_fns:
+            fail(node, "reduce() of something that is not a nested function")
+        ft = resolve(env[fname])
+        if len(ft[1]) != 2:
+            fail(node, "reduce() of a function that does not take two arguments")
+        bx, xs, et = self.iter_source(node.args[1], env)
+        unify(et, ft[1][1], node)
+        bi, init, ti = self.expr(node.args[2], env)
+        unify(ti, ft[1][0], node); unify(ft[2], ft[1][0], node)
+        if self.local_fns[fname].get("owned"):
+            # f updates its first argument in place: sound only if nobody else can see that object
+            if self.local_fns[fname]["owned"] != [self.local_fns[fname]["params"][0]] or not self.is_fresh(node.args[2]) \
+                    or isinstance(node.args[2], ast.Call):
+                fail(node, "reduce() with an in-place function needs a fresh literal as the initial value")
+        v, x, acc = self.fresh(), self.fresh(), self.fresh()
+        self.callee_raises |= set(EXC.values())
+        return bx + bi + ["do %s <- gfor %s (fun %s %s => %s %s %s) %s ;;" % (v, xs, x, acc, mangle(fname), acc, x, init)], v, ft[2]
+
     def p_deepcopy(self, node, env):
         (b, x, t), = self.args1(node, env)
         return b, x, t          # values are immutable here: a copy is the same value
 
     # ---- trusted idioms
     def idiom(self, node, env):
+        # float('inf') / float('-inf'): no scalar of T; they become the parameters py_inf / py_ninf of the generated
+        # function (only in the functions SPEC marks "infinity_params"; the tie theorems assume what the function needs of
+        # them, e.g. that they compare above / below the data)
+        if isinstance(node, ast.Call) and isinstance(node.func, ast.Name) and node.func.id == "float" \
+                and "float" not in env and len(node.args) == 1 and not node.keywords \
+                and isinstance(node.args[0], ast.Constant) and isinstance(node.args[0].value, str):
+            if node.args[0].value not in ("inf", "-inf"):
+                fail(node, "float() of a string other than 'inf' / '-inf'")
+            if not self.spec.get("infinity_params", False):
+                fail(node, "float('inf') in a function that SPEC does not mark infinity_params")
+            return [], ("py_inf" if node.args[0].value == "inf" else "py_ninf"), "float"
         # float(("{:." + str(decimals) + "f}").format(X))  ->  fround decimals X
         if isinstance(node, ast.Call) and isinstance(node.func, ast.Name) and node.func.id == "float" \
                 and "float" not in env and len(node.args) == 1 and not node.keywords:
@@ -923,6 +1100,13 @@ class FunTrans(object):
             env = dict(env); env[name] = lt
             return self.emit(b, ind) + [ind + "let %s := %s ++ [%s] in" % (mangle(name), mangle(name), x)] + \
                 self.block(rest, env, ctx, ind)
+        if isinstance(c, ast.Call) and isinstance(c.func, ast.Attribute) and c.func.attr == "pop" \
+                and isinstance(c.func.value, ast.Name) and not c.args and not c.keywords:
+            name = c.func.value.id                      # X.pop() as a statement: drop the last element
+            self.check_mutable(name, env, s)
+            if not (isinstance(resolve(env[name]), tuple) and resolve(env[name])[0] == "list"):
+                fail(s, "pop() on a %s" % show_type(env[name]))
+            return [ind + "do %s <- zpop %s ;;" % (mangle(name), mangle(name))] + self.block(rest, env, ctx, ind)
         fail(s, "expression statement not understood")
 
     def check_mutable(self, name, env, node):
@@ -930,13 +1114,46 @@ class FunTrans(object):
             fail(node, "variable %s is not bound" % name)
         if name in [p for p, _ in self.params] and name not in self.rebound:
             fail(node, "in-place update of the argument %s (visible to the caller; not modelled)" % name)
+        if name in self.outer_names and name not in [p for p, _ in self.params] and name not in self.rebound:
+            fail(node, "a nested function updates the variable %s of the enclosing function in place" % name)
 
     def s_Assign(self, s, rest, env, ctx, ind):
         if len(s.targets) != 1:
             fail(s, "chained assignment")
         tgt = s.targets[0]
+        if isinstance(tgt, ast.Tuple) and isinstance(s.value, ast.Tuple) and len(tgt.elts) == len(s.value.elts):
+            return self.assign_display(tgt, s.value, s, rest, env, ctx, ind)
         b, x, t = self.expr(s.value, env)
         return self.assign_to(tgt, b, x, t, s.value, s, rest, env, ctx, ind)
+
+    def assign_display(self, tgt, value, s, rest, env, ctx, ind):
+        """a, b = x, y : the right-hand side is evaluated completely, from left to right, then the targets are assigned
+        from left to right (each subscript target evaluates its container at that moment)"""
+        env = dict(env)
+        lines, comps = [], []
+        for e in value.elts:
+            bk, xk, tk = self.expr(e, env)
+            lines += bk
+            if isinstance(e, ast.Constant) or (isinstance(e, ast.UnaryOp) and isinstance(e.operand, ast.Constant)) \
+                    or re.match(r"^v_\d+$", xk):
+                comps.append((xk, tk))          # a literal or an immutable temporary
+            else:
+                v = self.fresh()
+                lines.append("let %s := %s in" % (v, xk)); comps.append((v, tk))
+        out = self.emit(lines, ind)
+        for e, (xk, tk), ve in zip(tgt.elts, comps, value.elts):
+            if isinstance(e, ast.Name):
+                self.no_alias(ve, tk)
+                if resolve(tk) == "unit":
+                    fail(s, "assignment of None")
+                env[e.id] = tk
+                self.rebound = self.rebound | {e.id}
+                out += [ind + "let %s := %s in" % (mangle(e.id), xk)]
+            elif isinstance(e, ast.Subscript):
+                out += self.emit(self.store(e, xk, tk, ve, env, s), ind)
+            else:
+                fail(s, "assignment target not understood")
+        return out + self.block(rest, env, ctx, ind)
 
     def assign_to(self, tgt, b, x, t, vnode, s, rest, env, ctx, ind):
         env = dict(env)
@@ -1058,6 +1275,21 @@ class FunTrans(object):
             fail(s, "code after return")
         if s.value is None:
             fail(s, "return without a value")
+        v = s.value
+        if isinstance(v, ast.BoolOp) and isinstance(v.op, ast.Or) and len(v.values) == 2 and isinstance(v.values[1], ast.Name) \
+                and isinstance(v.values[0], ast.Call) and isinstance(v.values[0].func, ast.Attribute) \
+                and v.values[0].func.attr == "extend" and isinstance(v.values[0].func.value, ast.Name) \
+                and v.values[0].func.value.id == v.values[1].id and len(v.values[0].args) == 1 and not v.values[0].keywords \
+                and isinstance(v.values[0].args[0], (ast.GeneratorExp, ast.ListComp)):
+            # return X.extend(e for ...) or X : extend returns None, so the value is X after the extension
+            name = v.values[1].id
+            self.check_mutable(name, env, s)
+            g = v.values[0].args[0]
+            comp = ast.copy_location(ast.ListComp(elt=g.elt, generators=g.generators), g)
+            bg, xg, tg = self.expr(comp, env)
+            t = unify(env[name], tg, s)
+            unify(t, ctx.rtype, s)
+            return self.emit(bg, ind) + [ind + ctx.ret("(%s ++ %s)" % (mangle(name), xg))]
         b, x, t = self.expr(s.value, env)
         rt = resolve(ctx.rtype)
         if rt == "float" and resolve(t) == "int":
@@ -1079,6 +1311,70 @@ class FunTrans(object):
         if isinstance(e, ast.Name) and e.id in EXC and e.id not in env:
             return [ind + "GErr %s" % EXC[e.id]]
         fail(s, "raise of an unknown exception")
+
+    def s_FunctionDef(self, s, rest, env, ctx, ind):
+        """a nested function: a local Gallina function  let f := (fun args => body) in ...  SPEC gives its types under
+        "locals".  It may read (not assign, not update in place) the variables of the enclosing function that are bound at
+        the def; Python looks such a variable up when the function is CALLED, so it must not be assigned afterwards."""
+        lspec = self.spec.get("locals", {}).get(s.name)
+        if lspec is None:
+            fail(s, "the nested function %s is not in the spec (locals)" % s.name)
+        if s not in self.fdef.body:
+            fail(s, "a nested function must be defined at the top level of the function body")
+        if s.name in env or s.name in self.local_fns:
+            fail(s, "the nested function %s redefines a name" % s.name)
+        sub = FunTrans(self.m, dict(lspec, name=s.name), s)
+        sub.counter, sub.local_fns, sub.outer_names = self.counter, self.local_fns, tuple(env)
+        sub.alias_ok = sub.alias_ok or self.alias_ok
+        lines, ftype, pnames = sub.translate_nested(env, ind)
+        self.counter = sub.counter
+        loaded = set(n.id for n in ast.walk(s) if isinstance(n, ast.Name))
+        later = set(assigned_names(rest))
+        for n in sorted(loaded & set(env)):
+            if n in later and n not in pnames:
+                fail(s, "the variable %s used by the nested function %s is assigned after the def" % (n, s.name))
+        if s.name in later:
+            fail(s, "the nested function %s is reassigned" % s.name)
+        env = dict(env)
+        env[s.name] = ftype
+        self.local_fns[s.name] = {"owned": list(lspec.get("owned", [])), "params": pnames}
+        return lines + self.block(rest, env, ctx, ind)
+
+    def translate_nested(self, outer_env, ind):
+        f, sp = self.fdef, self.spec
+        a = f.args
+        if a.vararg or a.kwonlyargs or getattr(a, "posonlyargs", []) or a.kwarg or a.defaults or f.decorator_list:
+            fail(f, "nested function: unsupported argument kinds / decorators")
+        names = [x.arg for x in a.args]
+        if names != list(sp["params"].keys()):
+            fail(f, "parameters %s differ from the spec %s" % (names, list(sp["params"].keys())))
+        self.params = [(n, parse_type(sp["params"][n])) for n in names]
+        self.rtype = parse_type(sp["returns"])
+        self.kwname, self.kwdefaults, self.defaults = None, {}, {}
+        for n in sp.get("owned", []):
+            if n not in names:
+                fail(f, "owned parameter %s is not a parameter" % n)
+        local = [n for n in assigned_names(f.body) if n not in names]
+        for n in local:
+            if n in outer_env:
+                fail(f, "the nested function assigns %s, a variable of the enclosing function" % n)
+        if contains(f.body, (ast.FunctionDef, ast.Nonlocal, ast.Global)):
+            fail(f, "nested function: def / nonlocal / global inside")
+        env = dict(outer_env)
+        for n, t in self.params:
+            env[n] = t
+        # an owned parameter is an object nobody but this call can see: updating it in place is a local effect
+        self.rebound = frozenset(sp.get("owned", []))
+        self.handler_exc = None
+        ctx = Ctx(lambda x: "GOk %s" % x,
+                  lambda env2, ind2: fail(f, "the function can fall off its end (returns None)"), self.rtype)
+        body = self.block(f.body, env, ctx, ind + "  ")
+        if self.fuels:
+            fail(f, "unused fuel expressions in the spec")
+        args = " ".join("(%s : %s)" % (mangle(n), coq_type(t)) for n, t in self.params)
+        body[-1] = body[-1] + ") in"
+        ftype = ("fn", tuple(t for _, t in self.params), self.rtype)
+        return [ind + "let %s := (fun %s =>" % (mangle(f.name), args)] + body, ftype, names
 
     def s_Pass(self, s, rest, env, ctx, ind):
         return self.block(rest, env, ctx, ind)
@@ -1106,9 +1402,14 @@ class FunTrans(object):
             b, truth = st
             live = s.body if truth else s.orelse
             return self.emit(b, ind) + self.block(list(live) + list(rest), env, ctx, ind)
+        if isinstance(s.test, ast.Name) and s.test.id in self.static_vals and s.test.id not in env:
+            # this variant of the function is specialised to the value of the parameter: only one branch exists
+            live = s.body if self.static_vals[s.test.id] else s.orelse
+            if always_terminates(live):
+                return self.block(list(live), env, ctx, ind)       # what follows the if is unreachable in this variant
+            return self.block(list(live) + list(rest), env, ctx, ind)
         bc, c, tc = self.expr(s.test, env)
-        if resolve(tc) != "bool":
-            fail(s, "condition is not a bool")
+        c = self.truth(c, tc, s)          # `if n:` on an int is `n != 0`
         out = self.emit(bc, ind)
         tb, te = always_terminates(s.body), always_terminates(s.orelse)
         dead = Ctx(ctx.ret, lambda env2, ind2: fail(s, "internal: fall-through of a terminating block"), ctx.rtype)
@@ -1173,11 +1474,50 @@ class FunTrans(object):
         is_range = isinstance(s.iter, ast.Call) and isinstance(s.iter.func, ast.Name) and s.iter.func.id == "range"
         for n in ast.walk(s.iter):
             if isinstance(n, ast.Name) and n.id in assigned and not is_range:
-                fail(s, "the iterated list is modified in the loop body")
+                if not self.writes_only_current(s, n.id):
+                    fail(s, "the iterated list is modified in the loop body")
         env0 = dict((k, v) for k, v in env.items() if k not in shadowed)
         pat, env2 = self.bind_target(s.target, et, env0)
         state = self.loop_state(s.body, env0)
         return self.emit(b, ind) + self.loop(s, "gfor", "gfor_ret", "%s (fun %s %%s =>" % (src, pat), state, env0, env2, rest, ctx, ind)
+
+    def writes_only_current(self, s, name):
+        """for i, x in enumerate(L) / enumerate(zip(A, L)) whose body changes L only by `L[i] = e` / `L[i] op= e`:
+        the lazy iteration of Python reads element k (and the length) before body k runs, and the bodies 0..k-1 wrote
+        the elements 0..k-1 only, so iterating over the value L had before the loop gives the same elements"""
+        it = s.iter
+        if not (isinstance(it, ast.Call) and isinstance(it.func, ast.Name) and it.func.id == "enumerate"
+                and len(it.args) == 1 and not it.keywords):
+            return False
+        inner = it.args[0]
+        srcs = inner.args if (isinstance(inner, ast.Call) and isinstance(inner.func, ast.Name) and inner.func.id == "zip"
+                              and not inner.keywords) else [inner]
+        if not all(isinstance(a, ast.Name) for a in srcs):
+            return False
+        if not (isinstance(s.target, ast.Tuple) and len(s.target.elts) == 2 and isinstance(s.target.elts[0], ast.Name)):
+            return False
+        idx = s.target.elts[0].id
+        for st in s.body:
+            for n in ast.walk(st):
+                if isinstance(n, (ast.For, ast.While, ast.Try, ast.Delete)):
+                    return False
+                if isinstance(n, ast.Call) and isinstance(n.func, ast.Attribute) and n.func.attr in MUTATORS:
+                    return False
+                tg = n.targets if isinstance(n, ast.Assign) else [n.target] if isinstance(n, ast.AugAssign) else []
+                for t in tg:
+                    for x in ast.walk(t):
+                        if isinstance(x, ast.Name) and x.id == name and isinstance(x.ctx, ast.Store):
+                            return False
+                    if isinstance(t, (ast.Tuple, ast.List)):
+                        return False
+                    base = t
+                    while isinstance(base, ast.Subscript):
+                        base = base.value
+                    if isinstance(base, ast.Name) and base.id == name:
+                        if not (isinstance(t, ast.Subscript) and isinstance(t.value, ast.Name)
+                                and isinstance(t.slice, ast.Name) and t.slice.id == idx):
+                            return False
+        return True
 
     def s_While(self, s, rest, env, ctx, ind):
         if s.orelse:
@@ -1383,6 +1723,8 @@ class FunTrans(object):
                              (coqname, k, coq_type(self.kwparams[k]), self.kwdefaults[k]))
         args = " ".join("(%s : %s)" % (mangle(n), coq_type(t)) for n, t in self.params)
         kargs = "".join(" (kw_%s : %s)" % (k, coq_type(self.kwparams[k])) for k in kworder)
+        if self.spec.get("infinity_params", False):
+            kargs += " (py_inf : T) (py_ninf : T)"
         lines.append("Definition %s {T : Type} (K : ops T) %s%s : gres %s :=" % (coqname, args, kargs, paren_type(rt)))
         body[-1] = body[-1] + "."
         lines += body
@@ -1400,7 +1742,8 @@ class FunTrans(object):
         info = {"coqname": coqname, "params": self.params, "kwparams": self.kwparams, "kworder": kworder,
                 "raises": sorted(raises_of_text(body) | self.callee_raises),
                 "kwnodefault": [k for k in kworder if self.kwdefaults[k] is None],
-                "defaults": defaults, "rtype": rt,
+                "defaults": defaults, "rtype": rt, "all_params": self.all_params, "static_defaults": self.static_defaults,
+                "infinity": bool(self.spec.get("infinity_params", False)),
                 "fntype": ("fn", tuple(t for _, t in self.params) + tuple(self.kwparams[k] for k in kworder), rt)}
         return "\n".join(lines), info
 
@@ -1409,8 +1752,10 @@ def raises_of_text(lines):
     """the exception kinds a generated block can raise by itself (calls are accounted for separately)"""
     txt = "\n".join(lines)
     out = set()
-    if "znth " in txt or "zset " in txt:
+    if "znth " in txt or "zset " in txt or "zpop " in txt:
         out.add("IndexError")
+    if "zfact_chk " in txt:
+        out.add("ValueError")
     if "zdiv_chk " in txt or "odiv_chk " in txt:
         out.add("ZeroDivisionError")
     for k in set(EXC.values()):
@@ -1438,13 +1783,14 @@ def close(lines, suffix, newline=None):
     return lines
 
 
-PRIMITIVES = ("len", "abs", "float", "int", "round", "min", "max", "list", "tuple", "deepcopy", "sum")
+PRIMITIVES = ("len", "abs", "float", "int", "round", "min", "max", "list", "tuple", "deepcopy", "sum", "bool", "sorted", "reduce")
 
 
 # ----------------------------------------------------------------------------------------------- modules
 class ModTrans(object):
     def __init__(self, world, mname, mspec, tree):
         self.world, self.name, self.spec = world, mname, mspec
+        self.pymodule = mspec.get("pymodule", mname)
         self.funcs = {}
         self.defs = {}
         for n in tree.body:
@@ -1454,6 +1800,12 @@ class ModTrans(object):
                 self.defs[n.name] = n
         # names imported from other translated modules:  from .linalg import linspace / from . import linalg
         self.imported_funcs, self.imported_mods = {}, {}
+        self.plain_imports = set()
+        for n in tree.body:
+            if isinstance(n, ast.Import):
+                for a in n.names:
+                    if a.asname is None:
+                        self.plain_imports.add(a.name)
         for n in tree.body:
             if isinstance(n, ast.ImportFrom) and n.level == 1:
                 for a in n.names:
@@ -1466,7 +1818,8 @@ class ModTrans(object):
         if name in self.funcs:
             return self.funcs[name]
         if name in self.defs:
-            return None
+            # a function of the same Python file that an earlier spec module (another generated file) translated
+            return self.world.lookup(self.pymodule, name, qualified=True, before=self.name)
         if name in self.imported_funcs:
             mod, fn = self.imported_funcs[name]
             return self.world.lookup(mod, fn, qualified=True)
@@ -1479,17 +1832,27 @@ class ModTrans(object):
 
 
 class World(object):
-    def __init__(self):
+    def __init__(self, order=()):
         self.mods = {}
+        self.order = list(order)
 
-    def lookup(self, mod, fn, qualified):
-        m = self.mods.get(mod)
-        if m is None or fn not in m.funcs:
-            return None
-        info = dict(m.funcs[fn])
-        if qualified:
-            info["coqname"] = "%s.%s" % (m.spec["coq_module"], info["coqname"])
-        return info
+    def lookup(self, mod, fn, qualified, before=None):
+        """the translated function `fn` of the PYTHON module `mod` (one Python file may be split over several spec
+        modules = generated files; they are searched in SPEC order, up to `before`)"""
+        for key in self.order:
+            if key == before:
+                break
+            m = self.mods.get(key)
+            if m is None or m.pymodule != mod or fn not in m.funcs:
+                continue
+            info = dict(m.funcs[fn])
+            if qualified:
+                info["coqname"] = "%s.%s" % (m.spec["coq_module"], info["coqname"])
+                if "variants" in info:
+                    info["variants"] = dict((k, dict(v, coqname="%s.%s" % (m.spec["coq_module"], v["coqname"])))
+                                            for k, v in info["variants"].items())
+            return info
+        return None
 
 
 HEADER = """(* GENERATED by harness/pytrans.py from %s - do not edit.
@@ -1502,8 +1865,8 @@ Local Open Scope Z_scope.
 
 
 def translate_blocks(repo_root, spec):
-    """-> {python module: (coq module, header, [(function, text or None, error or None)])}"""
-    world = World()
+    """-> {spec module: (coq module, python module, header, [(function, text or None, error or None)])}"""
+    world = World(spec["order"])
     out = {}
     for mname in spec["order"]:
         mspec = spec["modules"][mname]
@@ -1525,16 +1888,38 @@ def translate_blocks(repo_root, spec):
             if fname not in mt.defs:
                 blocks.append((fname, None, "function not found in %s" % mspec["file"])); continue
             try:
-                text, info = FunTrans(mt, fspec, mt.defs[fname]).translate()
+                if fspec.get("static"):
+                    text, info = translate_variants(mt, fspec, mt.defs[fname])
+                else:
+                    text, info = FunTrans(mt, fspec, mt.defs[fname]).translate()
                 mt.funcs[fname] = info
                 blocks.append((fname, text, None))
             except Untranslatable as e:
                 blocks.append((fname, None, str(e)))
             except RecursionError:
                 blocks.append((fname, None, "recursion limit"))
-        deps = "".join(" Gen.%s" % spec["modules"][d]["coq_module"] for d in mspec.get("imports", []))
-        out[mname] = (mspec["coq_module"], HEADER % (mspec["file"], deps), blocks)
+        deps = "".join(" Gen.%s" % r for r in mspec.get("requires", []))
+        deps += "".join(" Gen.%s" % spec["modules"][d]["coq_module"] for d in mspec.get("imports", []))
+        out[mname] = (mspec["coq_module"], mspec.get("pymodule", mname), HEADER % (mspec["file"], deps), blocks)
     return out
+
+
+def translate_variants(mt, fspec, fdef):
+    """a function with "static" parameters (bool flags that change the SHAPE of the result, e.g. matrix_pivot's `sign`) is
+    emitted once per value of the flags, as <name>__<flag>_<value>; a call site selects the variant by its literal argument"""
+    import itertools
+    statics = sorted(fspec["static"])
+    texts, variants, master = [], {}, None
+    for vals in itertools.product(*[fspec["static"][n] for n in statics]):
+        suffix = "".join("__%s_%s" % (n, str(v).lower()) for n, v in zip(statics, vals))
+        key = ",".join(repr(v) for v in vals)
+        sub = dict(fspec, name=fspec["name"] + suffix, static_vals=dict(zip(statics, vals)))
+        sub["returns"] = fspec["returns"][key] if isinstance(fspec["returns"], dict) else fspec["returns"]
+        text, info = FunTrans(mt, sub, fdef).translate()
+        texts.append(text); variants[tuple(vals)] = info; master = info
+    info = dict(master)
+    info.update({"static": statics, "variants": variants, "coqname": fspec["name"]})
+    return "\n".join(texts), info
 
 
 def render(mname, header, blocks):
@@ -1549,8 +1934,8 @@ def render(mname, header, blocks):
 def translate(repo_root, spec=None):
     spec = spec or SPEC
     res = {}
-    for mname, (coqmod, header, blocks) in translate_blocks(repo_root, spec).items():
-        res[coqmod] = render(mname, header, blocks)
+    for mname, (coqmod, pymod, header, blocks) in translate_blocks(repo_root, spec).items():
+        res[coqmod] = render(pymod, header, blocks)
     return res
 
 
@@ -1573,7 +1958,7 @@ def split_blocks(text):
 def check(repo_root, spec=None, gen_dir=GEN_DIR, out=sys.stdout):
     spec = spec or SPEC
     ok = True
-    for mname, (coqmod, header, blocks) in translate_blocks(repo_root, spec).items():
+    for _, (coqmod, mname, header, blocks) in translate_blocks(repo_root, spec).items():
         path = os.path.join(gen_dir, coqmod + ".v")
         try:
             with open(path) as fh:
@@ -1596,7 +1981,11 @@ def check(repo_root, spec=None, gen_dir=GEN_DIR, out=sys.stdout):
 FN_SPAN = "fn(int,list[float],int,float)->int"
 MAT = "list[list[float]]"
 SPEC = {
-    "order": ["_linalg", "linalg", "knotvector", "helpers"],
+    # One Python file may be split over several spec modules (= generated files): the files of the first round
+    # (LinalgInternal, Linalg, Knotvector, Helpers) are never regenerated with a different text, so that everything
+    # compiled against them stays valid; later additions live in their own generated files ("pymodule" = the Python module
+    # the functions are reported under by --check).
+    "order": ["_linalg", "linalg", "knotvector", "helpers", "linalg/geom", "_voxelize", "utilities", "linalg/mat"],
     "modules": {
         "_linalg": {"file": "geomdl/_linalg.py", "coq_module": "LinalgInternal", "imports": [], "functions": [
             {"name": "doolittle", "params": {"matrix_a": MAT}, "returns": "tuple[%s,%s]" % (MAT, MAT)},
@@ -1674,6 +2063,47 @@ SPEC = {
             {"name": "degree_reduction", "params": {"degree": "int", "ctrlpts": MAT}, "kwargs": {"check_num": "bool"},
              "returns": MAT, "alias_ok": True},
         ]},
+        # ---- second round -------------------------------------------------------------------------------------------
+        "linalg/geom": {"file": "geomdl/linalg.py", "pymodule": "linalg", "coq_module": "LinalgGeom",
+                        "requires": ["PreludeExt"], "imports": ["linalg"], "functions": [
+            {"name": "is_left", "params": {"point0": "list[float]", "point1": "list[float]", "point2": "list[float]"},
+             "returns": "float"},
+            {"name": "wn_poly", "params": {"point": "list[float]", "vertices": MAT}, "returns": "bool"},
+            # alias_ok: hull.append(r) stores the point r under a second name, but no point is ever updated in place (only
+            # the list `hull` grows and shrinks).  keep_left updates its argument `hull` in place and returns it: "owned"
+            # (it is only used as reduce(keep_left, ..., []), checked by the translator).  sorted() -> py_sorted_pts.
+            {"name": "convex_hull", "params": {"points": MAT}, "returns": MAT, "alias_ok": True,
+             "locals": {"cmp": {"params": {"a": "float", "b": "float"}, "returns": "int"},
+                        "turn": {"params": {"p": "list[float]", "q": "list[float]", "r": "list[float]"}, "returns": "int"},
+                        "keep_left": {"params": {"hull": MAT, "r": "list[float]"}, "returns": MAT, "owned": ["hull"],
+                                      "fuel": ["len(hull) + 1"]}}},
+        ]},
+        "linalg/mat": {"file": "geomdl/linalg.py", "pymodule": "linalg", "coq_module": "LinalgMat",
+                       "requires": ["PreludeExt"], "imports": ["linalg"], "functions": [
+            # @lru_cache: the UNDECORATED function is translated (memoisation of a pure function; matrix_pivot works on a
+            # deepcopy of the result, so the cached object is never updated)
+            {"name": "matrix_identity", "params": {"n": "int"}, "returns": MAT},
+            # static: `sign` changes the arity of the result: one generated function per value
+            {"name": "matrix_pivot", "params": {"m": MAT}, "static": {"sign": [False, True]},
+             "returns": {"False": "tuple[%s,%s]" % (MAT, MAT), "True": "tuple[%s,%s,float]" % (MAT, MAT)}},
+            {"name": "matrix_inverse", "params": {"m": MAT}, "returns": MAT},
+            {"name": "matrix_determinant", "params": {"m": MAT}, "returns": "float"},
+            {"name": "lu_factor", "params": {"matrix_a": MAT, "b": MAT}, "returns": MAT},
+            {"name": "binomial_coefficient", "params": {"k": "int", "i": "int"}, "returns": "float"},
+        ]},
+        "utilities": {"file": "geomdl/utilities.py", "coq_module": "Utilities", "requires": ["PreludeExt"],
+                      "imports": [], "functions": [
+            # infinity_params: bbmin / bbmax start at float('inf') / float('-inf')
+            {"name": "evaluate_bounding_box", "params": {"ctrlpts": MAT}, "returns": "tuple[list[float],list[float]]",
+             "infinity_params": True},
+        ]},
+        "_voxelize": {"file": "geomdl/_voxelize.py", "coq_module": "Voxelize", "requires": ["PreludeExt"],
+                      "imports": ["linalg"], "functions": [
+            {"name": "is_point_inside_voxel", "params": {"bbox": MAT, "ptsarr": MAT}, "kwargs": {"tol": "float"},
+             "returns": "int"},
+            {"name": "find_inouts_st", "params": {"voxel_grid": "list[%s]" % MAT, "datapts": MAT},
+             "kwargs": {"tol": "float"}, "returns": "list[int]"},
+        ]},
     },
 }
 
@@ -1688,9 +2118,18 @@ def main(argv=None):
     if a.write:
         for coqmod, text in translate(a.repo).items():
             os.makedirs(a.out, exist_ok=True)
-            with open(os.path.join(a.out, coqmod + ".v"), "w") as fh:
+            path = os.path.join(a.out, coqmod + ".v")
+            try:
+                with open(path) as fh:
+                    same = fh.read() == text
+            except OSError:
+                same = False
+            if same:        # an unchanged file keeps its time stamp (the .vo files that depend on it stay valid)
+                print("unchanged %s" % path)
+                continue
+            with open(path, "w") as fh:
                 fh.write(text)
-            print("wrote %s" % os.path.join(a.out, coqmod + ".v"))
+            print("wrote %s" % path)
         return 0
     if a.check:
         return 0 if check(a.repo, gen_dir=a.out) else 1
